@@ -720,15 +720,46 @@ def run_symderef(chk, F, rid="R-SYMDEREF"):
             if lhs is not None and strip(lhs).get("k") == "ref" and strip(lhs).get("dk") == "local" and is_getsym(rhs):
                 symlocals[strip(lhs).get("id")] = unwrap(rhs)
 
+        # expression locals that stand for another expression for their whole life: `const expression_t& id =
+        # expr.front();`, `expression_t id = fragments[n];` (declared once, never assigned): a test of id.get_symbol()
+        # is a test of the symbol of what id was initialised from
+        exprlocals, assigned = {}, set()
+        for d in walk(fn["body"]):
+            if d.get("k") == "decl":
+                for v in d.get("vars", []):
+                    if v.get("init") is not None and "expression_t" in (v.get("ct") or v.get("t") or "") and \
+                            "vector" not in (v.get("ct") or v.get("t") or ""):
+                        exprlocals[v.get("id")] = None if v.get("id") in exprlocals else unwrap(v["init"])
+            tgt = None
+            if d.get("k") == "bin" and d.get("op") in ("=",):
+                tgt = d["lhs"]
+            elif d.get("k") == "call" and d.get("ck") == "op" and d.get("op") == "=" and d.get("recv") is not None:
+                tgt = d["recv"]
+            if tgt is not None and strip(tgt).get("k") == "ref":
+                assigned.add(strip(tgt).get("id"))
+
+        def canon(e, depth=0):
+            e = unwrap(e)
+            if not isinstance(e, dict) or depth > 6:
+                return short(e) if isinstance(e, dict) else ""
+            if e.get("k") == "ref" and e.get("dk") == "local" and exprlocals.get(e.get("id")) is not None and \
+                    e.get("id") not in assigned:
+                return canon(exprlocals[e["id"]], depth + 1)
+            if e.get("k") == "call" and e.get("name") == "front" and not e.get("args") and e.get("recv") is not None:
+                return canon(e["recv"], depth + 1) + "[0]"
+            if e.get("k") == "call" and e.get("name") == "get_symbol" and e.get("recv") is not None:
+                return canon(e["recv"], depth + 1) + ".get_symbol()"
+            return short(e)
+
         def source(x):
             """the get_symbol() call whose result call x dereferences, and the text that stands for that value"""
             if x.get("k") != "call" or x.get("cls") != "UTAP::symbol_t" or x.get("name") not in DEREF or x.get("recv") is None:
                 return None
             r = unwrap(x["recv"])
             if is_getsym(r):
-                return r, {short(r)}
+                return r, {short(r), canon(r)}
             if isinstance(r, dict) and r.get("k") == "ref" and r.get("id") in symlocals:
-                return symlocals[r["id"]], {short(r), short(symlocals[r["id"]])}
+                return symlocals[r["id"]], {short(r), short(symlocals[r["id"]]), canon(symlocals[r["id"]])}
             return None
         # which case labels of the function's kind switch a node sits under
         labels_of = {}
@@ -776,7 +807,7 @@ def run_symderef(chk, F, rid="R-SYMDEREF"):
                 for x, y in (sides, sides[::-1]):
                     x, y = unwrap(x), unwrap(y)
                     if isinstance(y, dict) and y.get("k") == "construct" and not y.get("args") and \
-                            (y.get("cls") or "").endswith("symbol_t") and short(x) in names:
+                            (y.get("cls") or "").endswith("symbol_t") and (short(x) in names or canon(x) in names):
                         return 1 if op == "==" else -1
                 return 0
             known = {}
